@@ -9,6 +9,10 @@ import (
 
 const paddingForFieldNames = 4096
 
+// maxJSONEscapeExpansion is the largest number of bytes a single input
+// byte can become in a JSON string (\u00XX, \ufffd)
+const maxJSONEscapeExpansion = 6
+
 type errorCauseCompactor struct {
 	ec ErrorCause
 }
@@ -56,6 +60,14 @@ func (c *errorCauseCompactor) cropWorkingDir(factor float64) {
 	}
 
 	length := ((MaxErrorCauseSizeBytes - paddingForFieldNames) / 2)
+	c.ec.WorkingDir = cropString(c.ec.WorkingDir, length)
+}
+
+// cropEscaped crops Message and WorkingDir so that they fit into half
+// the max size each even if every byte is escaped to 6 bytes in JSON
+func (c *errorCauseCompactor) cropEscaped() {
+	length := ((MaxErrorCauseSizeBytes - paddingForFieldNames) / 2) / maxJSONEscapeExpansion
+	c.ec.Message = cropString(c.ec.Message, length)
 	c.ec.WorkingDir = cropString(c.ec.WorkingDir, length)
 }
 
